@@ -138,6 +138,16 @@ LANG_FAULTS = [
     ('statement-of-another-namespace', '<tal:block translate="">x</tal:block>', r'<tal:block (translate="")'),
     ('statement-of-another-namespace', '<i18n:block content="x">x</i18n:block>', r'<i18n:block (content="x")'),
     ('statement-of-another-namespace', '<metal:block define="a 1">x</metal:block>', r'<metal:block (define="a 1")'),
+    # tokens that begin with a line break, white-space-only list items
+    ('bad-define-part-after-newline', '<p tal:define="a 1;\n   1x 2">x</p>', r'(tal:define="[^"]*")'),
+    ('duplicate-attribute-after-newline', '<p tal:attributes="a 1;\n a 3">x</p>', r'(tal:attributes="[^"]*")'),
+    ('attributes-on-tal-element-newline', '<tal:block attributes="\n a 1">x</tal:block>', r'(<tal:block [^>]*>)'),
+    ('fill-slot-without-use-macro-newline', '<p metal:fill-slot="\n s">x</p>', r'(metal:fill-slot="\n s")'),
+    ('bad-i18n-attributes-after-newline', '<p i18n:attributes="title;\n a b c">x</p>', r'(i18n:attributes="[^"]*")'),
+    ('blank-i18n-attributes-item', '<p i18n:attributes="title; ">x</p>', r'(i18n:attributes="[^"]*")'),
+    ('blank-i18n-attributes-item-middle', '<p i18n:attributes="title m; ; alt">x</p>', r'(i18n:attributes="[^"]*")'),
+    ('blank-i18n-attributes-item-newline', '<p title="t" i18n:attributes="title;\n">x</p>', r'(i18n:attributes="[^"]*")'),
+    ('bad-repeat-after-newline', '<p tal:repeat="\n 1x y">x</p>', r'(tal:repeat="[^"]*")'),
     ('content-and-replace', '<p tal:content="a" tal:replace="b">x</p>', r'(<p [^>]*>)'),
     ('case-without-switch', '<p tal:case="1">x</p>', r'(tal:case="1")'),
     ('bad-define-syntax', '<p tal:define="1x 2">x</p>', r'(tal:define="1x 2")'),
